@@ -157,7 +157,10 @@ func VerifProgReopen() {
 	s.reopen()
 	assertSnapEqual(before, snapOf(s.f), "after reopen", true)
 	verifAssert(s.availNow() == availBefore, "after reopen: same number of allocatable pages")
-	verifAssert(s.f.stats == statsBefore, "after reopen: same FileStats")
+	st := s.f.stats
+	verifAssert(st.DataAllocated == statsBefore.DataAllocated && st.MetaArea == statsBefore.MetaArea &&
+		st.MetaAllocated == statsBefore.MetaAllocated && st.MaxSize == statsBefore.MaxSize && st.PageSize == statsBefore.PageSize,
+		"after reopen: same FileStats (pages in use, meta area, limits; the size estimate is not part of the claim)")
 	s.checkCommitted("after reopen")
 	s.assertPartition("after reopen")
 	// one more symbolic transaction on the reopened instance
